@@ -248,6 +248,9 @@ class ReqModel(LibModel):
         return {}
 
 
+SKIP = object()
+
+
 class SiblingMixin:
     """C02: a row of the left operand that differs from every earlier row in a variable the right operand reads must not be
     suppressed as a duplicate when the right operand is evaluated next (AND: after a true left row; OR / ElseIf: after a false
@@ -271,7 +274,7 @@ class SiblingMixin:
             # does not always determine (a true left operand of a conjunction, a false left operand of a disjunction):
             # then it must be asked without assuming one (None); asking with None is always allowed
             mine = self.own_truth(is_left, wt.v)
-            ok = all(a is None or (mine is not None and a == mine) for a in st.ghost['asked_when'])
+            ok = mine is SKIP or all(a is None or (mine is not None and a == mine) for a in st.ghost['asked_when'])
             eng.oblige(st, "req/parent-is-asked-for-the-truth-value-the-operator-can-actually-have", z3.BoolVal(bool(ok)),
                        asked=repr(st.ghost['asked_when']), own=repr(mine))
         if is_left and isinstance(wt, C) and wt.v in self.right_evaluated_after_left:
@@ -395,6 +398,9 @@ class ReqExceptIf(SiblingMixin, ReqModel):
     needs_parent = True
     props = ('C02', 'C12')
     right_evaluated_after_left = (True,)
+    # a rule with a refinement is true exactly when its base (the left operand) is; what the refinement's own truth value
+    # means for the parent is not pinned down here (SKIP: no clause for the right operand)
+    own_truth = staticmethod(lambda is_left, t: t if is_left else SKIP)
 
 
 CONTRACTS = [ReqBase, ReqQuantifier, ReqDescriptor, ReqBinary, ReqOr, ReqExceptIf]
